@@ -340,7 +340,7 @@ class Two(Packet):
                       "operation every OTHER live packet's fields and pack() output must be unchanged, no list / nested packet may be shared by "
                       "identity between two packets, two consecutive pack() calls must agree; at the end of every history every live packet must serialize exactly as an equal packet built alone in a fresh world (the class definitions executed again) does; a write monitor on the field objects reports any "
                       "attribute written after class creation; 8 threads x rounds of parse+pack on distinct packets vs the sequential result; "
-                      "explicit probes for the findings D8 and D9"),
+                      "explicit probes for the findings D8 and D9 and for an unconsumed delimiter; the same histories (with user-shared objects, in-place appends, deep assignments, re-parses) run on Model/Heap.v: after every operation the identity structure of the live packets and the value of each must agree"),
                 samples=[dict(history=metas[0][1][0])] if metas and metas[0][1] else [],
                 distribution=dist, failures=failures, disagreements=heap_dis)
 
